@@ -1,13 +1,191 @@
-/- C06 — first layer; see DESIGN.md §5 -/
-import UBidi.Model.Reorder
-import UBidi.Spec.UAX9
-import UBidi.Spec.Reorder
-namespace UBidi.Props.C06
-open UBidi
+/-
+  C06 — "`reorder_line` returns the line's characters in visual order".
 
-/-- the analysis of the empty text is empty and does not fail -/
-theorem empty_text (ds : DataSource) (d : Option Nat) :
-    (bidiInfo ds (Text.ofScalars []) d).levels = [] ∧ (bidiInfo ds (Text.ofScalars []) d).err = none := by
-  constructor <;> rfl
+  Model: `reorderLine` (UBidi/Model/Reorder.lean; `BidiInfo::reorder_line` /
+  `ParagraphBidiInfo::reorder_line`, which call `reordered_levels`, `visual_runs_for_line` and the
+  free function `reorder_line`), result `Option (List Piece) × Option Panic`, `none` = the line is
+  returned as it is.
+  Spec : `Spec.lineLevels` (rule L1, per character) and `Spec.l2` (rule L2) of UBidi/Spec/Reorder.lean.
+
+  For a well-formed text, a non-empty line `[a, b)` on character boundaries, resolved levels that are
+  constant on every character (what property C08 provides) and at most 126:
+    * `C06_no_panic`       — no panic site is reached;
+    * `C06_chars`          — the scalar values of the result are those of the line's characters, read
+                             in the order `Spec.l2` of the per-character levels after `Spec.lineLevels`;
+    * `C06_perm`           — so every character of the line occurs exactly once;
+    * `C06_noop`           — with no odd level after L1 the result is the line;
+    * `C06_run_boundaries` — the runs the pieces are cut at start and end at character boundaries;
+    * `C06_whole_chars`    — the pieces' characters are a permutation of the line's characters
+                             (as `Seg`s: position, scalar value and length unchanged), and each piece is
+                             a block of consecutive characters of the line that tiles a unit range
+                             between two character boundaries — in order for a verbatim piece, reversed
+                             otherwise.
+
+  Proof: `C03_line` gives the line levels as the expansion of the per-character L1 levels;
+  `C05_partition` gives single-level maximal runs, hence run ends on character boundaries;
+  `C05_order` gives the unit order `Spec.l2` of the unit levels, which `Lemmas.C06.l2_expand`
+  relates to `Spec.l2` of the per-character levels; reading both sides through "the character that
+  starts at this unit" gives the characters (UBidi/Lemmas/C06L2.lean, C06Segs.lean, C06Line.lean).
+-/
+import UBidi.Model.Reorder
+import UBidi.Spec.Reorder
+import UBidi.Lemmas.C06Line
+namespace UBidi.Props.C06
+open UBidi BidiClass
+
+/-! ## Definitions used in the statements -/
+
+/-- the characters of the line `[a, b)` -/
+def lineSegs (t : Text) (a b : Nat) : List Seg :=
+  t.segs.filter (fun s => a ≤ s.start && s.start < b)
+
+/-- the per-character levels of the line after rule L1: the Spec's `lineLevels` applied to the
+    `(original class, resolved level)` of the line's characters, read at their first code unit -/
+def lineL1 (t : Text) (classes : List BidiClass) (levels : List Nat) (pl a b : Nat) : List Nat :=
+  Spec.lineLevels pl ((lineSegs t a b).map (fun s => (classes.getD s.start .ON, levels.getD s.start 0)))
+
+/-- the scalar values of the result, `none` meaning the line itself -/
+def resultChars (t : Text) (a b : Nat) (r : Option (List Piece)) : List Nat :=
+  match r with
+  | none => (t.segs.filter (fun s => a ≤ s.start && s.start < b)).map (·.cp)
+  | some ps => piecesChars ps
+
+theorem lineSegs_eq (t : Text) (a b : Nat) : lineSegs t a b = Lemmas.C06.lineSegs t a b := rfl
+
+theorem lineL1_eq (t : Text) (classes : List BidiClass) (levels : List Nat) (pl a b : Nat) :
+    lineL1 t classes levels pl a b = Lemmas.C06.lineL1 t classes levels pl a b := rfl
+
+theorem resultChars_eq (t : Text) (a b : Nat) (r : Option (List Piece)) :
+    resultChars t a b r = (Lemmas.C06.resultSegs t a b r).map (·.cp) := by
+  cases r with
+  | none => rfl
+  | some ps => simp [resultChars, Lemmas.C06.resultSegs, piecesChars, List.map_flatMap]
+
+/-! ## The theorems -/
+
+section
+variable (t : Text) (hwf : t.WF) (classes : List BidiClass) (levels : List Nat) (pl a b : Nat)
+  (hab : a < b) (hb : b ≤ t.len) (ha : t.isBoundary a = true) (hbb : t.isBoundary b = true)
+  (hc : classes.length = t.len) (hl : levels.length = t.len) (hul : C03.UniformOn t levels)
+  (h126 : ∀ l ∈ levels, l ≤ 126) (hpl : pl ≤ 126)
+include hwf hab hb ha hbb hc hl hul h126 hpl
+
+/-- no panic site is reached (`levels[..]` / `classes[..]` bounds, the `assert_eq!` of
+    `reorder_levels`, `new_lowest_ge_rtl().expect`, `lower(1).expect`, `str` slicing off a
+    character boundary) -/
+theorem C06_no_panic : (reorderLine t classes levels pl a b).2 = none :=
+  (Lemmas.C06.Hyp.result ⟨hwf, hab, hb, ha, hbb, hc, hl, hul, h126, hpl⟩).1
+
+/-- the result consists of the characters of the line in the visual order: position `v` of the
+    result holds the character number `(Spec.l2 l1)[v]` of the line, `l1` the line's per-character
+    levels after rule L1 -/
+theorem C06_chars :
+    resultChars t a b (reorderLine t classes levels pl a b).1
+      = (Spec.l2 (lineL1 t classes levels pl a b)).map (fun k => ((lineSegs t a b).getD k default).cp) := by
+  rw [resultChars_eq, (Lemmas.C06.Hyp.result ⟨hwf, hab, hb, ha, hbb, hc, hl, hul, h126, hpl⟩).2,
+    List.map_map]
+  rfl
+
+/-- every character of the line occurs exactly once in the result -/
+theorem C06_perm :
+    (resultChars t a b (reorderLine t classes levels pl a b).1).Perm ((lineSegs t a b).map (·.cp)) := by
+  rw [resultChars_eq]
+  exact (Lemmas.C06.Hyp.result_perm ⟨hwf, hab, hb, ha, hbb, hc, hl, hul, h126, hpl⟩).map _
+
+/-- if no character of the line has an odd level after rule L1, the result is the line -/
+theorem C06_noop (h : ∀ l ∈ lineL1 t classes levels pl a b, l % 2 = 0) :
+    resultChars t a b (reorderLine t classes levels pl a b).1 = (lineSegs t a b).map (·.cp) := by
+  rw [C06_chars t hwf classes levels pl a b hab hb ha hbb hc hl hul h126 hpl,
+    Lemmas.C06.spec_l2_even _ h, lineL1_eq, Lemmas.C06.lineL1_length, ← lineSegs_eq]
+  have := Lemmas.C06.map_getD_range (lineSegs t a b) default
+  rw [show (fun k => ((lineSegs t a b).getD k default).cp)
+      = (fun s : Seg => s.cp) ∘ (fun k => (lineSegs t a b).getD k default) from rfl,
+    ← List.map_map, this]
+
+/-- the runs at which the line is cut (`visual_runs_for_line` on the line levels) lie in the line
+    and start and end at character boundaries: no character is split -/
+theorem C06_run_boundaries :
+    ∀ r ∈ (visualRunsForLine (reorderedLevels t classes levels pl a b).1 a b).1,
+      a ≤ r.1 ∧ r.1 < r.2 ∧ r.2 ≤ b ∧ t.isBoundary r.1 = true ∧ t.isBoundary r.2 = true :=
+  Lemmas.C06.Hyp.run_boundaries ⟨hwf, hab, hb, ha, hbb, hc, hl, hul, h126, hpl⟩
+
+/-- pieces are whole characters: the pieces' characters are, up to order, exactly the characters of
+    the line (same position, scalar value and length), and each piece is a block of consecutive
+    characters of the line that tiles a range `[x, y)` between two character boundaries, listed in
+    order by a verbatim piece and in reverse order by the other pieces -/
+theorem C06_whole_chars : ∀ ps, (reorderLine t classes levels pl a b).1 = some ps →
+    (ps.flatMap (·.segs)).Perm (lineSegs t a b) ∧
+    ∀ p ∈ ps, ∃ x y, a ≤ x ∧ x < y ∧ y ≤ b ∧ t.isBoundary x = true ∧ t.isBoundary y = true ∧
+      (if p.verbatim then p.segs else p.segs.reverse) = t.segs.filter (fun s => x ≤ s.start && s.start < y) ∧
+      SegsFrom x (t.segs.filter (fun s => x ≤ s.start && s.start < y)) y ∧
+      t.segs.filter (fun s => x ≤ s.start && s.start < y) <:+: lineSegs t a b := by
+  intro ps hps
+  have hh : Lemmas.C06.Hyp t classes levels pl a b := ⟨hwf, hab, hb, ha, hbb, hc, hl, hul, h126, hpl⟩
+  refine ⟨?_, hh.pieces_whole ps hps⟩
+  have := hh.result_perm
+  rw [hps] at this
+  exact this
+
+end
+
+/-! ## Non-vacuity and tests (the `decide`s below are tests on literals, not proofs of the property) -/
+
+/-- `a`, ALEF (2 UTF-8 units), U+1F600 (4 units), BET (2 units), space, `1`, TAB, `b` -/
+def exText : Text := Text.ofScalars [0x61, 0x5D0, 0x1F600, 0x5D1, 0x20, 0x31, 0x9, 0x62]
+/-- classes and levels of `exText` as `bidiInfo hardcoded exText (some 1)` computes them -/
+def exCls : List BidiClass := [L, R, R, ON, ON, ON, ON, R, R, WS, EN, S, L]
+def exLv : List Nat := [2, 1, 1, 1, 1, 1, 1, 1, 1, 1, 2, 1, 2]
+
+theorem exText_wf : exText.WF :=
+  ⟨by simp [exText, Text.ofScalars, Text.layout, Text.totalLen, Enc.charLen, utf8Len, SegsFrom],
+   by decide⟩
+
+theorem exLv_uniform : C03.UniformOn exText exLv := by unfold C03.UniformOn; decide
+
+/-- non-vacuity: the hypotheses hold for the whole text as one line and for the line `[1, 12)`,
+    both with multi-unit characters inside a right-to-left run -/
+example : resultChars exText 0 13 (reorderLine exText exCls exLv 1 0 13).1
+    = (Spec.l2 (lineL1 exText exCls exLv 1 0 13)).map (fun k => ((lineSegs exText 0 13).getD k default).cp) :=
+  C06_chars exText exText_wf exCls exLv 1 0 13 (by decide) (by decide) (by decide) (by decide) rfl rfl
+    exLv_uniform (by decide) (by decide)
+
+example : (reorderLine exText exCls exLv 1 1 12).2 = none :=
+  C06_no_panic exText exText_wf exCls exLv 1 1 12 (by decide) (by decide) (by decide) (by decide) rfl rfl
+    exLv_uniform (by decide) (by decide)
+
+/-- non-vacuity of `C06_whole_chars` / `C06_perm`: the line `[1, 12)` does produce pieces -/
+example : (reorderLine exText exCls exLv 1 1 12).1.isSome = true ∧
+    (resultChars exText 1 12 (reorderLine exText exCls exLv 1 1 12).1).Perm ((lineSegs exText 1 12).map (·.cp)) :=
+  ⟨by decide, C06_perm exText exText_wf exCls exLv 1 1 12 (by decide) (by decide) (by decide) (by decide)
+    rfl rfl exLv_uniform (by decide) (by decide)⟩
+
+/-- test: both sides of `C06_chars` on the example (`b TAB 1 space BET U+1F600 ALEF a`) -/
+example : resultChars exText 0 13 (reorderLine exText exCls exLv 1 0 13).1
+      = [0x62, 0x9, 0x31, 0x20, 0x5D1, 0x1F600, 0x5D0, 0x61] ∧
+    lineL1 exText exCls exLv 1 0 13 = [2, 1, 1, 1, 1, 2, 1, 2] ∧
+    Spec.l2 (lineL1 exText exCls exLv 1 0 13) = [7, 6, 5, 4, 3, 2, 1, 0] := by decide
+
+/-- test: the pieces for the line `[1, 12)`: TAB (reset to the paragraph level by L1), the digit
+    verbatim, the right-to-left run reversed character by character -/
+example : (reorderLine exText exCls exLv 1 1 12).1.map (fun ps => ps.map (fun p => (p.verbatim, p.segs)))
+    = some [(false, [⟨11, 0x9, 1⟩]), (true, [⟨10, 0x31, 1⟩]),
+            (false, [⟨9, 0x20, 1⟩, ⟨7, 0x5D1, 2⟩, ⟨3, 0x1F600, 4⟩, ⟨1, 0x5D0, 2⟩])] := by decide
+
+/-- non-vacuity of `C06_noop`, not through the early exit: stored levels all even, paragraph level 1,
+    no separator or trailing whitespace on the line, so no odd level after L1 -/
+example : (∀ l ∈ lineL1 (Text.ofScalars [0x61, 0x62]) [L, L] [2, 2] 1 0 2, l % 2 = 0) ∧
+    (reorderLine (Text.ofScalars [0x61, 0x62]) [L, L] [2, 2] 1 0 2).1.isNone = true ∧
+    (reorderLine (Text.ofScalars [0x61, 0x62]) [L, L] [2, 2] 1 0 2).2 = none := by decide
+
+/-- test: the early exit must look at the paragraph level (defect D6 of the crate: `a TAB b` with a
+    right-to-left paragraph level has the TAB at level 1 after L1) -/
+example : resultChars (Text.ofScalars [0x61, 0x9, 0x62]) 0 3
+      (reorderLine (Text.ofScalars [0x61, 0x9, 0x62]) [L, S, L] [2, 2, 2] 1 0 3).1 = [0x62, 0x9, 0x61] := by
+  decide
+
+/-- the uniformity hypothesis cannot be dropped: with levels that change inside a character a run
+    boundary falls inside the character and the UTF-8 slicing panics -/
+example : (reorderLine (Text.ofScalars [0x5D0, 0x61]) [R, R, L] [1, 2, 2] 0 0 3).2 = some .sliceBoundary := by
+  decide
 
 end UBidi.Props.C06
